@@ -789,4 +789,4 @@ package zygo
 //@ requires stream != nil
 //@ ghost terminatorQueued := false @entry
 //@ ghost terminatorQueued := true @after call AddNextStream[0]
-//@ C13 assert text-is-terminated @before call ParseTokens[0]: terminatorQueued && (len(env.parser.lexer.next) == 1 && env.parser.lexer.stream == stream) || (len(env.parser.lexer.next) == 0 && env.parser.lexer.stream != nil)
+//@ C13 assert text-is-terminated @before call ParseTokens[0]: terminatorQueued && ((len(env.parser.lexer.next) == 1 && env.parser.lexer.stream == stream) || (len(env.parser.lexer.next) == 0 && env.parser.lexer.stream != nil))
